@@ -120,7 +120,7 @@ MORE = {
     "C08": "Also: helpers with keyword-only parameters without default, functions / structs / tuples holding functions as dict keys and set elements, the built tree renamed to another directory and rebuilt (nothing may execute), and a default list the body appends to with two further runs on the kept project (the second must re-execute it); a value with heavy sharing (49 lists, 2^48 paths); a quarter of the stability checks run in another OS process; a build that does not come back within 30 s of real time is fingerprint-hang.",
     "C10": "Also: the root naming one path twice, one resolver resolving another root first, requirements at pseudo-versions, projects two directories below the repository root.",
     "C11": "Also: projects whose tags are all prereleases, several projects sharing a configured name.",
-    "C13": "Also: real builds between dry runs that are interrupted (crash_at); the twin history performs a load wherever the first performs a dry run.",
+    "C13": "Also: real builds between dry runs that are interrupted (crash_at, or right after the first of the two record writes of a source file); the twin history performs a load wherever the first performs a dry run.",
     "C14": "Also: builds that reload the previous project (watch mode), helper modules that fail to load until repaired (with an index-based collection in between), collections on the reloaded or kept project of the previous operation.",
     "C15": "Also: one decoder handed a truncated stream, a short tail leaning on leftover state and the intact stream in turn.",
     "C18": "Also: a dry run followed by Run with nil options on one loaded project (both runs' events checked), and builds of labels that name no target.",
